@@ -239,6 +239,32 @@ def c10_jobs(tier, seed):
     return jobs
 
 
+C18_QUICK = [
+    ('cached(orig): map || stream,stream', CA(O('a;b')), [['map1'], ['c1f0', 'c1f0']], 6),
+    ('cached(orig): stream || stream', CA(O('a;b')), [['c1f0'], ['c1f0']], 6),
+    ('cached(orig): map || map', CA(O('a;b')), [['map1'], ['map1']], 6),
+    ('cached(orig): map,stream || stream,map', CA(O('a;b')), [['map1', 'c1f0'], ['c1f0', 'map1']], 5),
+    ('cached(orig): lines map || columns stream', CA(O('a;\nb')), [['map0', 'c0f0'], ['c1f0', 'map1']], 5),
+    ('cached(orig): clone,map || stream', CA(O('a;b')), [['clone', 'map1'], ['c1f0', 'c1f0']], 5),
+    ('cached(orig): hash || hash,source', CA(O('a;b')), [['hash', 'map1'], ['hash', 'source']], 6),
+    ('cached(replace): map || stream,stream', CA(RP(O('ab;c'), (1, 2, 'X', 'n'))), [['map1'], ['c1f0', 'c1f0']], 5),
+    ('replace(orig,2 unsorted): source || source', RP(O('abcd'), (2, 3, 'X'), (0, 1, 'Y')), [['source'], ['source']], 8),
+    ('replace(orig,2 unsorted): clone,source || source', RP(O('abcd'), (2, 3, 'X'), (0, 1, 'Y')), [['clone', 'source'], ['source']], 8),
+    ('replace(orig,2 unsorted): hash || stream', RP(O('abcd'), (2, 3, 'X'), (0, 1, 'Y')), [['hash', 'source'], ['c1f0']], 6),
+    ('replace(orig,2 unsorted): map || clone,map', RP(O('ab;d'), (2, 3, 'X'), (0, 1, 'Y')), [['map1'], ['clone', 'map1']], 6),
+    ('rawbuf: source || source,size', RB('a\nb'), [['source'], ['source', 'size']], 6),
+    ('raw(string): source || stream', R('a\nb'), [['source'], ['c1f0']], 6),
+    ('concat[cached(orig),rawbuf]: map || stream', CC(CA(O('a;')), RB('b')), [['map1'], ['c1f0', 'source']], 5),
+]
+
+
+def c18_jobs(tier, seed):
+    jobs = [J('threads:' + t[0], 'jobs.conc:conc_job', dict(tree=t[1], progs=t[2], max_switches=t[3]), timeout=900) for t in C18_QUICK]
+    if tier == 'thorough':
+        jobs += [J('threads+2:' + t[0], 'jobs.conc:conc_job', dict(tree=t[1], progs=t[2], max_switches=t[3] + 3), required=False, timeout=3000) for t in C18_QUICK]
+    return jobs
+
+
 def c13_jobs(tier, seed):
     jobs = []
     for t in C13_QUICK:
@@ -325,8 +351,10 @@ PROPS = {
                 outside=TREE_OUTSIDE + '; typed nesting flattened by ConcatSource::new/add and CachedSource wrappers until their stages are registered', assumptions=TREE_ASSUME),
     'C16': dict(jobs=[rope_jobs], bounds={'quick': 'rope.rs itself interpreted from MIR (no Rope contract): construction programs of the catalog ROPE_QUICK (<= 7 steps over new/from/from_iter/add/append/clone/get_byte_slice, <= 5 pieces incl. empty pieces, 1-4 byte UTF-8 characters, pieces cut inside lines; piece CONTENT symbolic over {a,b}, line structure concrete; slice bounds SYMBOLIC in [0, len+1]); every observer on every register, all pairs for ==, starts_with, == &str; get_byte at every index', 'thorough': 'as quick plus ROPE_THOROUGH'},
                 outside='programs longer than the catalog; symbolic line structure; Rc/Vec allocation behaviour (Rc::make_mut is modelled as copy-on-write), Hash of ropes', assumptions=['Vec / Rc / VecDeque / binary_search_by are contracts (msx/contracts.py); std::binary_search_by is modelled by the algorithm of Rust 1.82+ (returns the last of several equal keys) - rope.rs relies on that unspecified behaviour']),
-    'C19': dict(jobs=[rope_jobs, wi_jobs, codec_c11], bounds={'quick': 'unsafe sites reached through checked contracts: slice::get_unchecked / str::get_unchecked / Rope::byte_slice_unchecked (rope jobs of C16 and WithIndices::substring with SYMBOLIC char indices incl. usize::MAX over multi-byte &str and Rope lines), String::from_utf8_unchecked in both encoders (ASCII obligation on every drain)', 'thorough': 'as quick'},
-                outside='the two lifetime-extending transmutes (replace_source.rs, cached_source.rs): the replacement vector is only borrowed during a stream call (&mut self excludes mutation) - decided for CachedSource by the C18 schedules when registered; misaligned access / allocator-level UB (no raw pointer arithmetic in the crate); sanitizer runs are not part of this technique', assumptions=['an unchecked operation is modelled as its checked form whose failure is reported']),
+    'C18': dict(jobs=[c18_jobs], bounds={'quick': 'catalog C18_QUICK: TWO logical threads, <= 2 operations each over map / stream_chunks / source / size / hash / clone on a shared CachedSource (both fill paths and the replay path, both column settings, a clone sharing the caches), ReplaceSource (lazy sort under Mutex + AtomicBool, clone), RawSource / RawBufferSource (OnceLock) and a ConcatSource containing them; EVERY interleaving at the library\'s shared-state accesses (AtomicBool load/store, Mutex::lock, DashMap get/insert/entry, VacantEntry::insert, OnceLock) and at operation boundaries up to 5-8 context switches; locks block, guards release where the MIR drops them', 'thorough': 'as quick with 3 more context switches'},
+                outside='three threads; schedules with more switches; weak memory (all accesses are SeqCst in the crate; the model is sequentially consistent); switch points inside user-defined child sources; only the cache-entry-replacement class of counterexamples has a native forcing harness (real threads + a gated inner source), other interleavings would be reported as inconclusive', assumptions=['DashMap is modelled as ONE shard with a reader/writer lock held by the guards the real API returns; std Mutex / OnceLock block']),
+    'C19': dict(jobs=[rope_jobs, wi_jobs, codec_c11, c18_jobs], bounds={'quick': 'unsafe sites reached through checked contracts: slice::get_unchecked / str::get_unchecked / Rope::byte_slice_unchecked (rope jobs of C16 and WithIndices::substring with SYMBOLIC char indices incl. usize::MAX over multi-byte &str and Rope lines), String::from_utf8_unchecked in both encoders (ASCII obligation on every drain)', 'thorough': 'as quick'},
+                outside='the transmute in replace_source.rs: the replacement vector is only borrowed while &self is borrowed and mutation needs &mut self (a type-system argument, not a query); misaligned access / allocator-level UB (no raw pointer arithmetic in the crate); sanitizer runs are not part of this technique', assumptions=['an unchecked operation is modelled as its checked form whose failure is reported']),
     'C17': dict(jobs=[codec_c17, sms_jobs(['C17'], True), tree_jobs(['C17']), replace_jobs(['C17'])],
                 bounds={'quick': 'decoder: inductive step over ONE byte (all 256 values) from every decoder state satisfying the stated invariant - covers strings of every length < 2^31; '
                                  'plus all byte strings of length <= 3 and continuation runs of 12/13/14/20 digits in each of the 5 field slots, debug and release MIR',
